@@ -6,6 +6,7 @@ import GrinVerif.Model.CrashZip
 import GrinVerif.Model.CrashKernel
 import GrinVerif.Model.CrashAof
 import GrinVerif.Model.CrashMulti
+import GrinVerif.Model.CrashGenesis
 /-! Driver glue for the `crash` domain (C09): the real step labels of a scenario are interpreted
 as model steps, the durable state at each crash point is computed by the model and `recover`
 predicts how the node reopens. -/
@@ -32,6 +33,8 @@ structure St where
   scns : List Scn := []
   /-- `crash aof`: element kind (`var` / `fix<n>`), durable content of the file pair, the open file -/
   akind : String := "var"
+  /-- `crash startup`: crash-point labels of the first start on an empty directory -/
+  glabels : List String := []
   adisk : CrashAof.Disk := { size := [], data := [] }
   aof : Option CrashAof.Aof := none
 
@@ -414,9 +417,41 @@ def handleAof (st : St) (args0 : List String) (impl : String) : St × Verdict :=
         (st, cmpModel ("[" ++ ",".intercalate es ++ "]") impl)
     | _ => (st, .unknown)
 
+
+/-! ### `crash startup`: start-up paths that no crash left (`Model/CrashGenesis.lean`) -/
+
+def handleStartup (st : St) (args : List String) (impl : String) : St × Verdict :=
+  match args with
+  | ["steps", labels] => ({ st with glabels := labels.splitOn "," }, .ok)
+  -- an empty directory: genesis is installed; started again: still genesis
+  | ["empty", _] => (st, cmpModel "open=ok head=b0" (implClass impl))
+  | ["empty-killed", n, _label] =>
+    match n.toNat? with
+    | none => (st, .unknown)
+    | some n =>
+      let g := (gstepsOfLabels st.glabels n).foldl applyGStep {}
+      match recoverG g with
+      | none => (st, cmpModel "open=ok head=b0" (implClass impl))
+      | some why => (st, cmpModel s!"open=err:{why.toString}" (implClass impl))
+  -- database on `head`, no txhashset directory: no candidate validates on empty files
+  | ["no-txhashset", head] =>
+    match idOf head >>= fun h => pathOf st.tbl (st.tbl.length + 1) h [] with
+    | some path => (st, cmpModel (showRec (recover bcAT st.tbl (emptyFiles (consistent path)))) (implClass impl))
+    | none => (st, .unknown)
+  -- PIBD head marker above the body head: no rewind, no validation
+  | ["pibd-marker", head, pibd] =>
+    match idOf head, idOf pibd with
+    | some h, some p =>
+      let hh := ((pathOf st.tbl (st.tbl.length + 1) h []).map (·.length)).getD 0
+      let ph := ((pathOf st.tbl (st.tbl.length + 1) p []).map (·.length)).getD 0
+      (st, cmpModel (showRec (recoverPibd h hh ph (.openFail .other))) (implClass impl))
+    | _, _ => (st, .unknown)
+  | _ => (st, .unknown)
+
 def handle (st : St) (args : List String) (impl : String) : St × Verdict :=
   match args with
   | "reset" :: _ => ({}, .ok)
+  | "startup" :: rest => handleStartup st rest impl
   | "aof" :: rest => handleAof st rest impl
   | "blk" :: b :: rest =>
     match parseBlk b rest with
